@@ -647,6 +647,7 @@ func writeEvidence(id, tier string, seed int64, spec CheckSpec, results []*harne
 		"deciding_batch_queries":  total.BatchQueries,
 		"confirm_queries":         total.ConfirmQueries,
 		"confirm_unknown":         total.ConfirmUnknown,
+		"deciding_query_retries":  total.Retries,
 		"solver_time_s":           solverTime,
 		"solver_queries":          solverQueries,
 		"solver_disagreements":    total.Disagreements,
